@@ -42,7 +42,8 @@ where
         .map_err(|e| Error::ProcessSocksRequest("read user id", e))?;
     // Remove the null byte
     user_id.pop();
-    let rhost = if ip >> 24 == 0 {
+    // SOCKS4a: DSTIP is 0.0.0.x with a non-zero x
+    let rhost = if ip != 0 && ip >> 8 == 0 {
         let mut domain = Vec::new();
         reader
             .read_until(0, &mut domain)
